@@ -85,6 +85,7 @@ PoolSets ==
       [] Family = "C11pairs" -> <<PoolC11pairs(ElemNames)>>
       [] Family = "C11pred"  -> <<PoolC11pred(ElemNames)>>
       [] Family = "C11more"  -> <<PoolC11nested(ElemNames), PoolC11seq(ElemNames)>>
+      [] Family = "C13wrapMixed" -> [i \in 1 .. 12 |-> PoolC13wrapMixed({SetToSeq(AllAxes)[i]}, TestsA)]
       [] Family = "C13wrap" -> [i \in 1 .. 12 |-> PoolC13wrap({SetToSeq(AllAxes)[i]}, TestsA)
                                                   \cup UNION {Wrappers(Path(ab, <<Step(ax, NTAny, <<>>), Step(SetToSeq(AllAxes)[i], nt, <<>>)>>)) :
                                                               ab \in BOOLEAN, ax \in AllAxes \ {SetToSeq(AllAxes)[i]}, nt \in TestsA}]
